@@ -15,6 +15,66 @@ Definition ep_key (ep : string) : string := (endpoint_prefix ++ ep)%string.
 Definition eps_agree (n : cnode) (sn : snode) : Prop :=
   forall ep, lookup ep (cn_eps n) = match lookup (ep_key ep) (sn_kv sn) with Some v => atoi v | None => None end.
 
+(* ---- endpoint keys ---- *)
+Lemma prefixb_split p k : prefixb p k = true -> k = (p ++ drop (String.length p) k)%string.
+Proof.
+  revert k. induction p as [|a p IH]; intros k; cbn; [reflexivity|].
+  destruct k as [|b k]; [discriminate|]. intros H. apply andb_prop in H. destruct H as [H1 H2].
+  apply Ascii.eqb_eq in H1. subst b. f_equal. apply IH, H2.
+Qed.
+
+Lemma endpoint_of_ep_key ep : endpoint_of_key (ep_key ep) = Some ep.
+Proof. unfold endpoint_of_key, ep_key. rewrite prefixb_append, drop_append. reflexivity. Qed.
+
+Lemma endpoint_of_key_inv k ep : endpoint_of_key k = Some ep -> k = ep_key ep.
+Proof.
+  unfold endpoint_of_key, ep_key. destruct (prefixb endpoint_prefix k) eqn:E; [|discriminate].
+  intros [= <-]. apply prefixb_split, E.
+Qed.
+
+Lemma ep_key_inj a b : ep_key a = ep_key b -> a = b.
+Proof. intros H. pose proof (endpoint_of_ep_key a) as Ha. rewrite H, endpoint_of_ep_key in Ha. congruence. Qed.
+
+Lemma endpoint_of_key_none k ep : endpoint_of_key k = None -> ep_key ep <> k.
+Proof. intros H <-. rewrite endpoint_of_ep_key in H. discriminate. Qed.
+
+Lemma addr_keys_not_endpoint : endpoint_of_key "proxy_addr" = None /\ endpoint_of_key "admin_addr" = None.
+Proof. split; reflexivity. Qed.
+
+(* how a change of one shadow key affects eps_agree *)
+Lemma eps_agree_kv_other n sn kv' :
+  eps_agree n sn -> (forall ep, lookup (ep_key ep) kv' = lookup (ep_key ep) (sn_kv sn)) ->
+  eps_agree n {| sn_left := sn_left sn; sn_unreach := sn_unreach sn; sn_kv := kv' |}.
+Proof. intros H Hk ep. cbn [sn_kv]. rewrite Hk. apply H. Qed.
+
+Lemma eps_agree_flags n sn l u :
+  eps_agree n sn -> eps_agree n {| sn_left := l; sn_unreach := u; sn_kv := sn_kv sn |}.
+Proof. intros H ep. apply H. Qed.
+
+Lemma eps_agree_upsert n sn ep0 v z :
+  eps_agree n sn -> atoi v = Some z ->
+  eps_agree (with_eps n (insert ep0 z (cn_eps n)))
+            {| sn_left := sn_left sn; sn_unreach := sn_unreach sn; sn_kv := insert (ep_key ep0) v (sn_kv sn) |}.
+Proof.
+  intros H Hv ep. cbn [cn_eps with_eps sn_kv]. rewrite !lookup_insert.
+  destruct (String.eqb ep ep0) eqn:E.
+  - apply String.eqb_eq in E. subst ep0. rewrite String.eqb_refl. symmetry; exact Hv.
+  - apply String.eqb_neq in E. destruct (String.eqb (ep_key ep) (ep_key ep0)) eqn:E2; [|apply H].
+    apply String.eqb_eq, ep_key_inj in E2. contradiction.
+Qed.
+
+Lemma eps_agree_delete n sn ep0 :
+  eps_agree n sn ->
+  eps_agree (with_eps n (remove ep0 (cn_eps n)))
+            {| sn_left := sn_left sn; sn_unreach := sn_unreach sn; sn_kv := remove (ep_key ep0) (sn_kv sn) |}.
+Proof.
+  intros H ep. cbn [cn_eps with_eps sn_kv]. rewrite !lookup_remove.
+  destruct (String.eqb ep ep0) eqn:E.
+  - apply String.eqb_eq in E. subst ep0. rewrite String.eqb_refl. reflexivity.
+  - apply String.eqb_neq in E. destruct (String.eqb (ep_key ep) (ep_key ep0)) eqn:E2; [|apply H].
+    apply String.eqb_eq, ep_key_inj in E2. contradiction.
+Qed.
+
 Section Fold.
   (* the immutable addresses each node announces (cluster.Node documents them immutable) *)
   Variable addr_of : string -> string * string.
@@ -63,4 +123,381 @@ Section Fold.
         (k = "proxy_addr" -> v = fst (addr_of id)) /\ (k = "admin_addr" -> v = snd (addr_of id)) /\
         (forall ep, k = ep_key ep -> atoi v <> None)
     end.
+
+  (* ---- locality: a callback only touches its own node ---- *)
+  Definition pend_wf (s : sstate) : Prop := forall k p, lookup k (ss_pending s) = Some p -> cn_id p = k.
+
+  Ltac crush_step :=
+    match goal with
+    | H : lookup ?n (ss_pending ?s) = Some ?c, W : pend_wf ?s |- _ => rewrite (W n c H) in *
+    | H : (_, _) = (_, _) |- _ => inversion H; subst; clear H
+    | H : context [match ?x with _ => _ end] |- _ => destruct x eqn:?
+    | H : context [if ?b then _ else _] |- _ => destruct b eqn:?
+    | |- context [match ?x with _ => _ end] => destruct x eqn:?
+    | |- context [if ?b then _ else _] => destruct b eqn:?
+    end; cbn [ss_nodes ss_pending ss_local set_cnodes set_pending fst snd add_node cn_id with_status with_eps with_proxy with_admin] in *.
+
+  Ltac crush_other :=
+    repeat crush_step; try discriminate; rewrite ?lookup_insert_ne, ?lookup_remove_ne by congruence; auto.
+
+  Lemma on_event_other s e id :
+    pend_wf s -> ev_id e <> id ->
+    lookup id (ss_nodes (on_event s e)) = lookup id (ss_nodes s) /\
+    lookup id (ss_pending (on_event s e)) = lookup id (ss_pending s) /\ ss_local (on_event s e) = ss_local s.
+  Proof.
+    intros Hpw Hne. destruct e as [n|n|n|n|n k v|n k|n]; cbn [ev_id on_event] in *.
+    - unfold on_join. crush_other.
+    - unfold on_leave, update_remote_status. crush_other.
+    - unfold on_status, update_remote_status. crush_other.
+    - unfold on_status, update_remote_status. crush_other.
+    - unfold on_upsert, update_remote_endpoint, promote, add_node. crush_other.
+    - unfold on_delete, remove_remote_endpoint. crush_other.
+    - unfold on_expired, remove_node. crush_other.
+  Qed.
+
+  Lemma pend_wf_insert s k p : pend_wf s -> cn_id p = k -> forall k0 p0, lookup k0 (insert k p (ss_pending s)) = Some p0 -> cn_id p0 = k0.
+  Proof.
+    intros Hw Hk k0 p0. rewrite lookup_insert. destruct (String.eqb k0 k) eqn:E; [|apply Hw].
+    apply String.eqb_eq in E. intros [= <-]. congruence.
+  Qed.
+
+  Lemma pend_wf_remove s k : pend_wf s -> forall k0 p0, lookup k0 (remove k (ss_pending s)) = Some p0 -> cn_id p0 = k0.
+  Proof.
+    intros Hw k0 p0. rewrite lookup_remove. destruct (String.eqb k0 k); [discriminate|apply Hw].
+  Qed.
+
+  Ltac pend_id Hpw :=
+    cbn [cn_id with_status with_eps with_proxy with_admin];
+    first [reflexivity | match goal with H : lookup ?n (ss_pending _) = Some ?c |- cn_id ?c = ?n => exact (Hpw n c H) end].
+
+  Lemma on_event_pend_wf s e : pend_wf s -> pend_wf (on_event s e).
+  Proof.
+    intros Hpw. destruct e as [n|n|n|n|n k v|n k|n]; cbn [on_event].
+    - unfold on_join. repeat crush_step; try exact Hpw. intros k0 p0. apply pend_wf_insert; [exact Hpw|pend_id Hpw].
+    - unfold on_leave, update_remote_status. repeat crush_step; try exact Hpw; try discriminate; intros k0 p0; apply pend_wf_remove, Hpw.
+    - unfold on_status, update_remote_status. repeat crush_step; try exact Hpw; try discriminate.
+      all: intros k0 p0; apply pend_wf_insert; [exact Hpw|pend_id Hpw].
+    - unfold on_status, update_remote_status. repeat crush_step; try exact Hpw; try discriminate.
+      all: intros k0 p0; apply pend_wf_insert; [exact Hpw|pend_id Hpw].
+    - unfold on_upsert, update_remote_endpoint, promote, add_node. repeat crush_step; try exact Hpw; try discriminate.
+      all: intros k0 p0; first [apply pend_wf_remove, Hpw | apply pend_wf_insert; [exact Hpw|pend_id Hpw]].
+    - unfold on_delete, remove_remote_endpoint. repeat crush_step; try exact Hpw; try discriminate.
+      all: intros k0 p0; apply pend_wf_insert; [exact Hpw|pend_id Hpw].
+    - unfold on_expired, remove_node. repeat crush_step; try exact Hpw; try discriminate; intros k0 p0; apply pend_wf_remove, Hpw.
+  Qed.
+
+  Definition rel_at (s : sstate) (id : string) (o : option snode) : Prop :=
+    match o with
+    | None => lookup id (ss_nodes s) = None /\ lookup id (ss_pending s) = None
+    | Some sn => promoted s id sn \/ pending_ok s id sn \/ dropped s id sn
+    end.
+
+  Lemma rel_at_ext s s' id o :
+    lookup id (ss_nodes s') = lookup id (ss_nodes s) -> lookup id (ss_pending s') = lookup id (ss_pending s) ->
+    rel_at s id o -> rel_at s' id o.
+  Proof.
+    intros H1 H2. unfold rel_at, promoted, pending_ok, dropped. rewrite H1, H2. auto.
+  Qed.
+
+  (* constructors for the three classes from raw lookups *)
+  Lemma mk_promoted s id sn n :
+    lookup id (ss_nodes s) = Some n -> lookup id (ss_pending s) = None -> cn_id n = id ->
+    cn_proxy n = fst (addr_of id) -> cn_admin n = snd (addr_of id) -> cn_status n = status_of sn -> eps_agree n sn ->
+    rel_at s id (Some sn).
+  Proof. intros. left. exists n. auto 10. Qed.
+
+  Lemma mk_dropped s id sn :
+    lookup id (ss_pending s) = None -> lookup id (ss_nodes s) = None -> sn_left sn = true -> rel_at s id (Some sn).
+  Proof. intros. right. right. split; auto. Qed.
+
+  (* ---- the callbacks at their own node ---- *)
+  Lemma neq_local s id : id <> ss_local s -> String.eqb id (ss_local s) = false.
+  Proof. intros H. apply String.eqb_neq, H. Qed.
+
+  Lemma step_join s sh id :
+    id <> ss_local s -> rel_at s id (lookup id sh) -> ev_ok sh (EJoin id) ->
+    rel_at (on_join s id) id (lookup id (fold_event sh (EJoin id))).
+  Proof.
+    intros Hne Hr Hok. cbn [ev_ok] in Hok. rewrite Hok in Hr. destruct Hr as [Hn Hp].
+    cbn [fold_event]. rewrite lookup_insert_eq. unfold on_join, mem. rewrite (neq_local _ _ Hne), Hn, Hp.
+    right. left. eexists. cbn [ss_pending ss_nodes set_pending]. rewrite lookup_insert_eq.
+    split; [reflexivity|]. split; [exact Hn|]. cbn. repeat split; auto; try (intros H; exfalso; apply H; reflexivity).
+  Qed.
+
+  Lemma step_leave s sh id :
+    id <> ss_local s -> rel_at s id (lookup id sh) -> ev_ok sh (ELeave id) ->
+    rel_at (on_leave s id) id (lookup id (fold_event sh (ELeave id))).
+  Proof.
+    intros Hne Hr Hok. cbn [ev_ok] in Hok. cbn [fold_event]. rewrite upd_lookup, String.eqb_refl.
+    destruct (lookup id sh) as [sn|] eqn:Esn; [|contradiction]. cbn [option_map].
+    unfold on_leave, update_remote_status. rewrite (neq_local _ _ Hne).
+    destruct Hr as [[n [H1 [H2 [H3 [H4 [H5 [H6 H7]]]]]]]|[[p [H1 [H2 [H3 [H4 H5]]]]]|[H1 [H2 H3]]]].
+    - rewrite H1. cbn [fst snd ss_nodes ss_pending set_cnodes].
+      apply (mk_promoted _ id _ (with_status n SLeft)); cbn [ss_nodes ss_pending set_cnodes cn_id cn_proxy cn_admin cn_status with_status];
+        first [apply lookup_insert_eq | apply (eps_agree_flags n sn true (sn_unreach sn) H7) | assumption | reflexivity].
+    - rewrite H2. cbn [ss_nodes ss_pending set_pending]. apply mk_dropped; cbn [ss_nodes ss_pending set_pending]; auto. apply lookup_remove_eq.
+    - rewrite H2. cbn [ss_nodes ss_pending set_pending]. apply mk_dropped; cbn [ss_nodes ss_pending set_pending]; auto. apply lookup_remove_eq.
+  Qed.
+
+  Lemma step_status s sh id (up : bool) :
+    id <> ss_local s -> rel_at s id (lookup id sh) ->
+    ev_ok sh (if up then EReach id else EUnreach id) ->
+    rel_at (on_status s id (if up then SActive else SUnreach)) id (lookup id (fold_event sh (if up then EReach id else EUnreach id))).
+  Proof.
+    intros Hne Hr Hok.
+    assert (Hsn : exists sn, lookup id sh = Some sn /\ sn_left sn = false /\ sn_unreach sn = up).
+    { destruct up; cbn [ev_ok] in Hok; destruct Hok as [sn [A [B C]]]; exists sn; auto. }
+    destruct Hsn as [sn [Esn [Hl Hu]]]. rewrite Esn in Hr.
+    assert (Hfold : lookup id (fold_event sh (if up then EReach id else EUnreach id)) =
+                    Some {| sn_left := sn_left sn; sn_unreach := negb up; sn_kv := sn_kv sn |}).
+    { destruct up; cbn [fold_event]; rewrite upd_lookup, String.eqb_refl, Esn; reflexivity. }
+    rewrite Hfold. unfold on_status, update_remote_status. rewrite (neq_local _ _ Hne).
+    destruct Hr as [[n [H1 [H2 [H3 [H4 [H5 [H6 H7]]]]]]]|[[p [H1 [H2 [H3 [H4 [H5 [H6 [H7 [H8 [H9 [H10 H11]]]]]]]]]]]|[H1 [H2 H3]]]].
+    - rewrite H1. cbn [fst snd].
+      apply (mk_promoted _ id _ (with_status n (if up then SActive else SUnreach)));
+        cbn [ss_nodes ss_pending set_cnodes cn_id cn_proxy cn_admin cn_status with_status];
+        first [apply lookup_insert_eq | apply (eps_agree_flags n sn _ _ H7) | assumption
+              | unfold status_of; cbn [sn_left sn_unreach]; rewrite Hl; destruct up; reflexivity].
+    - rewrite H2, H1. cbn [fst snd]. right. left. exists (with_status p (if up then SActive else SUnreach)).
+      cbn [ss_nodes ss_pending set_pending cn_id cn_proxy cn_admin cn_status with_status sn_left sn_unreach sn_kv].
+      rewrite lookup_insert_eq. repeat split; auto; first [destruct up; reflexivity | apply (eps_agree_flags p sn _ _ H11)].
+    - congruence.
+  Qed.
+
+  Lemma step_expired s sh id :
+    id <> ss_local s -> rel_at s id (lookup id sh) -> ev_ok sh (EExpired id) ->
+    rel_at (on_expired s id) id (lookup id (fold_event sh (EExpired id))).
+  Proof.
+    intros Hne Hr Hok. cbn [ev_ok] in Hok. cbn [fold_event]. rewrite lookup_remove_eq.
+    destruct (lookup id sh) as [sn|]; [|contradiction].
+    unfold on_expired, remove_node. rewrite (neq_local _ _ Hne).
+    destruct Hr as [[n [H1 [H2 _]]]|[[p [H1 [H2 _]]]|[H1 [H2 H3]]]].
+    - rewrite H1. cbn [fst snd rel_at ss_nodes ss_pending set_cnodes]. split; [apply lookup_remove_eq|exact H2].
+    - rewrite H2. cbn [fst snd rel_at ss_nodes ss_pending set_pending]. split; [exact H2|apply lookup_remove_eq].
+    - rewrite H2. cbn [fst snd rel_at ss_nodes ss_pending set_pending]. split; [exact H2|apply lookup_remove_eq].
+  Qed.
+
+  Lemma kv_other_key k (kv : amap string) kv' :
+    (forall k0, k0 <> k -> lookup k0 kv' = lookup k0 kv) -> endpoint_of_key k = None ->
+    forall ep, lookup (ep_key ep) kv' = lookup (ep_key ep) kv.
+  Proof. intros H Hk ep. apply H. apply endpoint_of_key_none, Hk. Qed.
+
+  Lemma step_delete s sh id k :
+    id <> ss_local s -> rel_at s id (lookup id sh) -> ev_ok sh (EDelete id k) ->
+    rel_at (on_delete s id k) id (lookup id (fold_event sh (EDelete id k))).
+  Proof.
+    intros Hne Hr Hok. cbn [ev_ok] in Hok. cbn [fold_event]. rewrite upd_lookup, String.eqb_refl.
+    destruct (lookup id sh) as [sn|] eqn:Esn; [|contradiction]. cbn [option_map].
+    set (sn' := {| sn_left := sn_left sn; sn_unreach := sn_unreach sn; sn_kv := remove k (sn_kv sn) |}).
+    unfold on_delete, remove_remote_endpoint. rewrite (neq_local _ _ Hne).
+    destruct (endpoint_of_key k) as [ep0|] eqn:Ek.
+    - apply endpoint_of_key_inv in Ek. subst k.
+      destruct Hr as [[n [H1 [H2 [H3 [H4 [H5 [H6 H7]]]]]]]|[[p [H1 [H2 [H3 [H4 [H5 [H6 [H7 [H8 [H9 [H10 H11]]]]]]]]]]]|[H1 [H2 H3]]]].
+      + rewrite H1. cbn [fst snd].
+        apply (mk_promoted _ id sn' (with_eps n (remove ep0 (cn_eps n))));
+          cbn [ss_nodes ss_pending set_cnodes cn_id cn_proxy cn_admin cn_status with_eps];
+          first [apply lookup_insert_eq | apply (eps_agree_delete n sn ep0 H7) | assumption].
+      + rewrite H2, H1. cbn [fst snd]. right. left. exists (with_eps p (remove ep0 (cn_eps p))).
+        cbn [ss_nodes ss_pending set_pending cn_id cn_proxy cn_admin cn_status with_eps sn' sn_left sn_unreach sn_kv].
+        rewrite lookup_insert_eq. repeat split; auto.
+        * intros Hx. apply H8. rewrite lookup_remove_ne in Hx; [exact Hx|]. intros Heq. symmetry in Heq. revert Heq. apply endpoint_of_key_none. reflexivity.
+        * intros Hx. apply H9. rewrite lookup_remove_ne in Hx; [exact Hx|]. intros Heq. symmetry in Heq. revert Heq. apply endpoint_of_key_none. reflexivity.
+        * apply (eps_agree_delete p sn ep0 H11).
+      + rewrite H2, H1. cbn [fst snd]. apply mk_dropped; auto.
+    - assert (Hkv : forall ep, lookup (ep_key ep) (remove k (sn_kv sn)) = lookup (ep_key ep) (sn_kv sn)).
+      { intros ep. apply lookup_remove_ne. apply endpoint_of_key_none, Ek. }
+      destruct Hr as [[n [H1 [H2 [H3 [H4 [H5 [H6 H7]]]]]]]|[[p [H1 [H2 [H3 [H4 [H5 [H6 [H7 [H8 [H9 [H10 H11]]]]]]]]]]]|[H1 [H2 H3]]]].
+      + apply (mk_promoted _ id sn' n); auto. apply (eps_agree_kv_other n sn _ H7 Hkv).
+      + right. left. exists p. cbn [sn' sn_left sn_unreach sn_kv]. repeat split; auto.
+        * intros Hx. apply H8. rewrite lookup_remove in Hx. destruct (String.eqb "proxy_addr" k); [contradiction|exact Hx].
+        * intros Hx. apply H9. rewrite lookup_remove in Hx. destruct (String.eqb "admin_addr" k); [contradiction|exact Hx].
+        * apply (eps_agree_kv_other p sn _ H11 Hkv).
+      + apply mk_dropped; auto.
+  Qed.
+
+  Lemma eqb_nonempty a : a <> "" -> String.eqb a "" = false.
+  Proof. intros H. apply String.eqb_neq, H. Qed.
+
+  Lemma step_upsert s sh id k v :
+    id <> ss_local s -> rel_at s id (lookup id sh) -> ev_ok sh (EUpsert id k v) ->
+    rel_at (on_upsert s id k v) id (lookup id (fold_event sh (EUpsert id k v))).
+  Proof.
+    intros Hne Hr [Hok [Hpa [Haa Hep]]]. cbn [fold_event]. rewrite upd_lookup, String.eqb_refl.
+    destruct (lookup id sh) as [sn|] eqn:Esn; [|contradiction]. cbn [option_map].
+    set (sn' := {| sn_left := sn_left sn; sn_unreach := sn_unreach sn; sn_kv := insert k v (sn_kv sn) |}).
+    destruct (addr_nonempty id) as [NP NA].
+    unfold on_upsert. rewrite (neq_local _ _ Hne).
+    destruct (endpoint_of_key k) as [ep0|] eqn:Ek.
+    - (* an endpoint count *)
+      pose proof (endpoint_of_key_inv _ _ Ek) as Hk. subst k.
+      assert (Hnp : String.eqb (ep_key ep0) "proxy_addr" = false).
+      { apply String.eqb_neq. apply endpoint_of_key_none. reflexivity. }
+      assert (Hna : String.eqb (ep_key ep0) "admin_addr" = false).
+      { apply String.eqb_neq. apply endpoint_of_key_none. reflexivity. }
+      rewrite Hnp, Hna. cbn [orb andb].
+      destruct (atoi v) as [z|] eqn:Ez; [|exfalso; apply (Hep ep0 eq_refl); reflexivity].
+      unfold update_remote_endpoint. rewrite (neq_local _ _ Hne).
+      destruct Hr as [[n [H1 [H2 [H3 [H4 [H5 [H6 H7]]]]]]]|[[p [H1 [H2 [H3 [H4 [H5 [H6 [H7 [H8 [H9 [H10 H11]]]]]]]]]]]|[H1 [H2 H3]]]].
+      + rewrite H1. cbn [fst snd].
+        apply (mk_promoted _ id sn' (with_eps n (insert ep0 z (cn_eps n))));
+          cbn [ss_nodes ss_pending set_cnodes cn_id cn_proxy cn_admin cn_status with_eps];
+          first [apply lookup_insert_eq | apply (eps_agree_upsert n sn ep0 v z H7 Ez) | assumption].
+      + rewrite H2, H1. cbn [fst snd]. unfold promote. cbn [cn_proxy cn_admin cn_id with_eps]. rewrite H3.
+        assert (Hnot : negb (String.eqb (cn_proxy p) "") && negb (String.eqb (cn_admin p) "") = false).
+        { destruct H7 as [-> | ->]; cbn; [reflexivity|apply andb_false_r]. }
+        rewrite Hnot. right. left. exists (with_eps p (insert ep0 z (cn_eps p))).
+        cbn [ss_nodes ss_pending set_pending cn_id cn_proxy cn_admin cn_status with_eps sn' sn_left sn_unreach sn_kv].
+        rewrite lookup_insert_eq. repeat split; auto.
+        * intros Hx. apply H8. rewrite lookup_insert_ne in Hx; [exact Hx|]. intros Heq. symmetry in Heq. revert Heq. apply endpoint_of_key_none. reflexivity.
+        * intros Hx. apply H9. rewrite lookup_insert_ne in Hx; [exact Hx|]. intros Heq. symmetry in Heq. revert Heq. apply endpoint_of_key_none. reflexivity.
+        * apply (eps_agree_upsert p sn ep0 v z H11 Ez).
+      + rewrite H2, H1. cbn [fst snd]. apply mk_dropped; auto.
+    - (* any other key *)
+      assert (Hkv : forall ep, lookup (ep_key ep) (insert k v (sn_kv sn)) = lookup (ep_key ep) (sn_kv sn)).
+      { intros ep. apply lookup_insert_ne. apply endpoint_of_key_none, Ek. }
+      destruct Hr as [[n [H1 [H2 [H3 [H4 [H5 [H6 H7]]]]]]]|[[p [H1 [H2 [H3 [H4 [H5 [H6 [H7 [H8 [H9 [H10 H11]]]]]]]]]]]|[H1 [H2 H3]]]].
+      + (* promoted: addresses are sticky, other keys ignored *)
+        assert (Hs : (if (String.eqb k "proxy_addr" || String.eqb k "admin_addr") && mem id (ss_nodes s) then s
+                      else match lookup id (ss_pending s) with
+                           | Some p => if String.eqb k "proxy_addr" then promote s (with_proxy p v)
+                                       else if String.eqb k "admin_addr" then promote s (with_admin p v) else s
+                           | None => s end) = s).
+        { rewrite H2. destruct ((String.eqb k "proxy_addr" || String.eqb k "admin_addr") && mem id (ss_nodes s)); reflexivity. }
+        rewrite Hs. apply (mk_promoted _ id sn' n); auto. apply (eps_agree_kv_other n sn _ H7 Hkv).
+      + unfold mem. rewrite H2, andb_false_r, H1.
+        destruct (String.eqb k "proxy_addr") eqn:Ekp.
+        * apply String.eqb_eq in Ekp. subst k. specialize (Hpa eq_refl). subst v.
+          unfold promote. cbn [cn_proxy cn_admin cn_id with_proxy cn_status]. rewrite H3, (eqb_nonempty _ NP). cbn [negb andb].
+          destruct (String.eqb (cn_admin p) "") eqn:Ea; cbn [negb].
+          -- (* still waiting for the admin address *)
+             apply String.eqb_eq in Ea. right. left. exists (with_proxy p (fst (addr_of id))).
+             cbn [ss_nodes ss_pending set_pending cn_id cn_proxy cn_admin cn_status with_proxy sn' sn_left sn_unreach sn_kv].
+             rewrite lookup_insert_eq. repeat split; auto.
+             ++ intros Hx. apply H9. rewrite lookup_insert_ne in Hx by discriminate. exact Hx.
+             ++ apply (eps_agree_kv_other p sn _ H11 Hkv).
+          -- (* both addresses known: promoted *)
+             apply String.eqb_neq in Ea. destruct H6 as [H6|H6]; [contradiction|].
+             unfold add_node. cbn [ss_local set_pending cn_id with_proxy with_status].
+             assert (Hidl : String.eqb (cn_id match cn_status p with SNone => with_status (with_proxy p (fst (addr_of id))) SActive | _ => with_proxy p (fst (addr_of id)) end) (ss_local s) = false).
+             { destruct (cn_status p); cbn [cn_id with_status with_proxy]; rewrite H3; apply neq_local, Hne. }
+             rewrite Hidl.
+             assert (Hcid : cn_id match cn_status p with SNone => with_status (with_proxy p (fst (addr_of id))) SActive | _ => with_proxy p (fst (addr_of id)) end = id).
+             { destruct (cn_status p); cbn [cn_id with_status with_proxy]; exact H3. }
+             rewrite Hcid.
+             eapply (mk_promoted _ id sn'); cbn [ss_nodes ss_pending set_cnodes set_pending].
+             ++ apply lookup_insert_eq.
+             ++ apply lookup_remove_eq.
+             ++ exact Hcid.
+             ++ destruct (cn_status p); reflexivity.
+             ++ destruct (cn_status p); cbn [cn_admin with_status with_proxy]; exact H6.
+             ++ unfold status_of. cbn [sn' sn_left sn_unreach]. rewrite H4.
+                destruct (cn_status p) eqn:Es; cbn [cn_status with_status with_proxy]; rewrite ?Es, ?H10; try reflexivity; contradiction.
+             ++ assert (Hag : eps_agree p sn') by (apply (eps_agree_kv_other p sn _ H11 Hkv)).
+                destruct (cn_status p); intros ep; apply Hag.
+        * destruct (String.eqb k "admin_addr") eqn:Eka.
+          -- apply String.eqb_eq in Eka. subst k. specialize (Haa eq_refl). subst v.
+             unfold promote. cbn [cn_proxy cn_admin cn_id with_admin cn_status]. rewrite H3, (eqb_nonempty _ NA). cbn [negb andb].
+             destruct (String.eqb (cn_proxy p) "") eqn:Ea; cbn [negb andb].
+             ++ apply String.eqb_eq in Ea. right. left. exists (with_admin p (snd (addr_of id))).
+                cbn [ss_nodes ss_pending set_pending cn_id cn_proxy cn_admin cn_status with_admin sn' sn_left sn_unreach sn_kv].
+                rewrite lookup_insert_eq. repeat split; auto.
+                ** intros Hx. apply H8. rewrite lookup_insert_ne in Hx by discriminate. exact Hx.
+                ** apply (eps_agree_kv_other p sn _ H11 Hkv).
+             ++ apply String.eqb_neq in Ea. destruct H5 as [H5|H5]; [contradiction|].
+                unfold add_node. cbn [ss_local set_pending cn_id with_admin with_status].
+                assert (Hidl : String.eqb (cn_id match cn_status p with SNone => with_status (with_admin p (snd (addr_of id))) SActive | _ => with_admin p (snd (addr_of id)) end) (ss_local s) = false).
+                { destruct (cn_status p); cbn [cn_id with_status with_admin]; rewrite H3; apply neq_local, Hne. }
+                rewrite Hidl.
+                assert (Hcid : cn_id match cn_status p with SNone => with_status (with_admin p (snd (addr_of id))) SActive | _ => with_admin p (snd (addr_of id)) end = id).
+                { destruct (cn_status p); cbn [cn_id with_status with_admin]; exact H3. }
+                rewrite Hcid.
+                eapply (mk_promoted _ id sn'); cbn [ss_nodes ss_pending set_cnodes set_pending].
+                ** apply lookup_insert_eq.
+                ** apply lookup_remove_eq.
+                ** exact Hcid.
+                ** destruct (cn_status p); cbn [cn_proxy with_status with_admin]; exact H5.
+                ** destruct (cn_status p); reflexivity.
+                ** unfold status_of. cbn [sn' sn_left sn_unreach]. rewrite H4.
+                   destruct (cn_status p) eqn:Es; cbn [cn_status with_status with_admin]; rewrite ?Es, ?H10; try reflexivity; contradiction.
+                ** assert (Hag : eps_agree p sn') by (apply (eps_agree_kv_other p sn _ H11 Hkv)).
+                   destruct (cn_status p); intros ep; apply Hag.
+          -- (* a key the syncer does not know *)
+             apply String.eqb_neq in Ekp. apply String.eqb_neq in Eka.
+             right. left. exists p. cbn [sn' sn_left sn_unreach sn_kv]. repeat split; auto.
+             ++ intros Hx. apply H8. rewrite lookup_insert_ne in Hx by congruence. exact Hx.
+             ++ intros Hx. apply H9. rewrite lookup_insert_ne in Hx by congruence. exact Hx.
+             ++ apply (eps_agree_kv_other p sn _ H11 Hkv).
+      + unfold mem. rewrite H2, andb_false_r, H1. apply mk_dropped; auto.
+  Qed.
+
+  (* ---- one event, any node ---- *)
+  Lemma rel_step s sh e :
+    rel s sh -> pend_wf s -> ev_ok sh e -> rel (on_event s e) (fold_event sh e) /\ pend_wf (on_event s e).
+  Proof.
+    intros Hr Hpw Hok. split; [|apply on_event_pend_wf, Hpw].
+    intros id Hne. assert (Hloc : ss_local (on_event s e) = ss_local s).
+    { destruct e; cbn [on_event]; unfold on_join, on_leave, on_status, on_expired, on_upsert, on_delete, update_remote_status,
+        remove_node, update_remote_endpoint, remove_remote_endpoint, promote, add_node; repeat crush_step; reflexivity. }
+    rewrite Hloc in Hne. specialize (Hr id Hne). fold (rel_at s id (lookup id sh)) in Hr.
+    change (rel_at (on_event s e) id (lookup id (fold_event sh e))).
+    destruct (String.eqb (ev_id e) id) eqn:E.
+    - apply String.eqb_eq in E. destruct e as [n|n|n|n|n k v|n k|n]; cbn [ev_id] in E; subst n; cbn [on_event].
+      + apply step_join; assumption.
+      + apply step_leave; assumption.
+      + apply (step_status s sh id true); assumption.
+      + apply (step_status s sh id false); assumption.
+      + apply step_upsert; assumption.
+      + apply step_delete; assumption.
+      + apply step_expired; assumption.
+    - apply String.eqb_neq in E. destruct (on_event_other s e id Hpw E) as [H1 [H2 _]].
+      rewrite (fold_event_other sh e id E). apply (rel_at_ext s); assumption.
+  Qed.
+
+  Inductive evs_ok : shadow -> list event -> Prop :=
+  | evs_nil sh : evs_ok sh []
+  | evs_cons sh e evs : ev_ok sh e -> evs_ok (fold_event sh e) evs -> evs_ok sh (e :: evs).
+
+  Theorem fold_rel evs : forall s sh,
+    rel s sh -> pend_wf s -> evs_ok sh evs ->
+    rel (on_events s evs) (fold_events sh evs) /\ pend_wf (on_events s evs).
+  Proof.
+    induction evs as [|e evs IH]; intros s sh Hr Hpw Hok; [auto|].
+    inversion Hok as [|? ? ? He Hrest]; subst. destruct (rel_step s sh e Hr Hpw He) as [Hr1 Hpw1].
+    apply (IH (on_event s e) (fold_event sh e) Hr1 Hpw1 Hrest).
+  Qed.
+
+  Lemma rel_init id proxy admin : rel (new_sstate id proxy admin) [] /\ pend_wf (new_sstate id proxy admin).
+  Proof.
+    split.
+    - intros k Hne. cbn in *. destruct (String.eqb k id) eqn:E; [apply String.eqb_eq in E; contradiction|]. auto.
+    - intros k p. cbn. discriminate.
+  Qed.
+
+  (* ---- what the relation says about the routing table ---- *)
+  (* a node whose two addresses are visible and that has not left is in the routing table, with exactly the announced
+     addresses, the status given by the membership flags and the endpoint counts parsed from the visible entries *)
+  Theorem routing_mirrors_visible s sh id sn :
+    rel s sh -> id <> ss_local s -> lookup id sh = Some sn ->
+    lookup "proxy_addr" (sn_kv sn) <> None -> lookup "admin_addr" (sn_kv sn) <> None -> sn_left sn = false ->
+    exists n, lookup id (ss_nodes s) = Some n /\ cn_proxy n = fst (addr_of id) /\ cn_admin n = snd (addr_of id) /\
+              cn_status n = status_of sn /\ eps_agree n sn.
+  Proof.
+    intros Hr Hne Hsn Hp Ha Hl. specialize (Hr id Hne). rewrite Hsn in Hr.
+    destruct Hr as [[n [H1 [H2 [H3 [H4 [H5 [H6 H7]]]]]]]|[[p [H1 [H2 [H3 [H4 [H5 [H6 [H7 [H8 [H9 _]]]]]]]]]]|[_ [_ H3]]]].
+    - exists n. auto.
+    - exfalso. destruct H7 as [H7|H7]; [apply (H8 Hp H7)|apply (H9 Ha H7)].
+    - congruence.
+  Qed.
+
+  (* every routing entry (promoted node) mirrors the shadow; nodes the shadow does not hold are not routed to *)
+  Theorem routing_entries_sound s sh id n :
+    rel s sh -> id <> ss_local s -> lookup id (ss_nodes s) = Some n ->
+    exists sn, lookup id sh = Some sn /\ cn_status n = status_of sn /\ eps_agree n sn /\
+               cn_proxy n = fst (addr_of id) /\ cn_admin n = snd (addr_of id).
+  Proof.
+    intros Hr Hne Hn. specialize (Hr id Hne). destruct (lookup id sh) as [sn|].
+    - destruct Hr as [[n' [H1 [H2 [H3 [H4 [H5 [H6 H7]]]]]]]|[[p [H1 [H2 _]]]|[_ [H2 _]]]]; try congruence.
+      assert (n' = n) by congruence. subst n'. exists sn. auto.
+    - destruct Hr as [H1 _]. congruence.
+  Qed.
 End Fold.
